@@ -26,8 +26,10 @@ impl<BS: Blockstore> CborStore for BS {
 }
 /// runtime/src/actor_error.rs deserialize_block: decoding of a returned block (content unknown to this actor)
 pub uninterp spec fn deser_spec<T>(ret: Option<IpldBlock>) -> T;
+/// whether the block decodes as a T (deterministic)
+pub uninterp spec fn deser_ok<T>(ret: Option<IpldBlock>) -> bool;
 #[verifier::external_body]
 pub fn deserialize_block<T>(ret: Option<IpldBlock>) -> (r: Result<T, ActorError>)
-    ensures r.is_ok() ==> r->Ok_0 == deser_spec::<T>(ret)
+    ensures r.is_ok() == deser_ok::<T>(ret), r.is_ok() ==> r->Ok_0 == deser_spec::<T>(ret)
 { unimplemented!() }
 } // verus!
